@@ -32,12 +32,12 @@ package implements
 //@   assigns nothing
 
 // ---- @implements: loaders and matcher ---------------------------------------------------------------------------------
-// NOT a decision of C05 (agreement with go/types' identity and method sets is not expressible here, see /verif/DESIGN.md):
-// the loaders are proved total and read-only (C10), and the matcher is pinned to its own model of signatures, so a change
-// of what it compares is noticed.
-// The matcher's model of a type (the DEFINITION of the model, by cases on the go/types representation): a defined type is
-// (name, package path), a basic type its name, a pointer the model of its element with the pointer flag set, anything
-// else its go/types string. Both sides (interface methods, type methods) use the same model.
+// C05 demands agreement with Go's type checker, so go/types' own answers are the specification: every parameter / result
+// model carries the go/types type it was made from (goType), two models match iff go/types.Identical says so (and both
+// are variadic or neither is), a type method is usable for a value contract iff go/types' method set of T contains it.
+// The flat description (name, package path, pointer flag) is what the messages print and what hand-built models (goType
+// == nil) are compared by: a defined type is (name, package path), a basic type its name, a pointer the description of
+// its element with the pointer flag set, anything else its go/types string.
 //@ ghost func mName(t types.Type) string
 //@ ghost func mPkg(t types.Type) string
 //@ ghost func mPtr(t types.Type) bool
@@ -49,16 +49,18 @@ package implements
 //@   props C05 C10
 //@   requires t != nil
 //@   ensures result.TypeName == mName(t) && result.TypePackage == mPkg(t) && result.IsPointer == mPtr(t) && !result.IsVariadic
+//@   ensures result.goType == t
 //@   assigns nothing
 //@ func convertTypesToMethodType
 //@   props C05 C10
 //@   requires t != nil
 //@   ensures result.TypeName == mName(t) && result.TypePackage == mPkg(t) && result.IsPointer == mPtr(t) && !result.IsVariadic
+//@   ensures result.goType == t
 //@   assigns nothing
 // the type that is modelled for parameter k: the element type for the variadic last parameter (a slice), else its type
 //@ macro func elemT(tuple *types.Tuple, k int, isVariadic bool) types.Type = (isVariadic && k == tuple.Len() - 1 && typeis(tuple.At(k).Type(), *types.Slice)) ? cast(tuple.At(k).Type(), *types.Slice).Elem() : tuple.At(k).Type()
-//@ macro func tupleModelI(l []InterfaceType, tuple *types.Tuple, isVariadic bool) bool = tuple == nil ? len(l) == 0 : (len(l) == tuple.Len() && (forall k int :: 0 <= k && k < tuple.Len() ==> l[k].TypeName == mName(elemT(tuple, k, isVariadic)) && l[k].TypePackage == mPkg(elemT(tuple, k, isVariadic)) && l[k].IsPointer == mPtr(elemT(tuple, k, isVariadic)) && l[k].IsVariadic == (isVariadic && k == tuple.Len() - 1)))
-//@ macro func tupleModelM(l []MethodType, tuple *types.Tuple, isVariadic bool) bool = tuple == nil ? len(l) == 0 : (len(l) == tuple.Len() && (forall k int :: 0 <= k && k < tuple.Len() ==> l[k].TypeName == mName(elemT(tuple, k, isVariadic)) && l[k].TypePackage == mPkg(elemT(tuple, k, isVariadic)) && l[k].IsPointer == mPtr(elemT(tuple, k, isVariadic)) && l[k].IsVariadic == (isVariadic && k == tuple.Len() - 1)))
+//@ macro func tupleModelI(l []InterfaceType, tuple *types.Tuple, isVariadic bool) bool = tuple == nil ? len(l) == 0 : (len(l) == tuple.Len() && (forall k int :: 0 <= k && k < tuple.Len() ==> l[k].TypeName == mName(elemT(tuple, k, isVariadic)) && l[k].TypePackage == mPkg(elemT(tuple, k, isVariadic)) && l[k].IsPointer == mPtr(elemT(tuple, k, isVariadic)) && l[k].goType == elemT(tuple, k, isVariadic) && l[k].IsVariadic == (isVariadic && k == tuple.Len() - 1)))
+//@ macro func tupleModelM(l []MethodType, tuple *types.Tuple, isVariadic bool) bool = tuple == nil ? len(l) == 0 : (len(l) == tuple.Len() && (forall k int :: 0 <= k && k < tuple.Len() ==> l[k].TypeName == mName(elemT(tuple, k, isVariadic)) && l[k].TypePackage == mPkg(elemT(tuple, k, isVariadic)) && l[k].IsPointer == mPtr(elemT(tuple, k, isVariadic)) && l[k].goType == elemT(tuple, k, isVariadic) && l[k].IsVariadic == (isVariadic && k == tuple.Len() - 1)))
 //@ macro func sigOfFunc(f *types.Func) *types.Signature = cast(f.Type(), *types.Signature)
 //@ func extractTypesFromTuple
 //@   props C05 C10
@@ -66,18 +68,18 @@ package implements
 //@   assigns nothing
 //@   ensures tuple == nil ==> len(result) == 0
 //@   ensures tuple != nil ==> len(result) == tuple.Len()
-//@   ensures tuple != nil ==> (forall k int :: 0 <= k && k < tuple.Len() ==> result[k].TypeName == mName(elemT(tuple, k, isVariadic)) && result[k].TypePackage == mPkg(elemT(tuple, k, isVariadic)) && result[k].IsPointer == mPtr(elemT(tuple, k, isVariadic)) && result[k].IsVariadic == (isVariadic && k == tuple.Len() - 1))
+//@   ensures tuple != nil ==> (forall k int :: 0 <= k && k < tuple.Len() ==> result[k].TypeName == mName(elemT(tuple, k, isVariadic)) && result[k].TypePackage == mPkg(elemT(tuple, k, isVariadic)) && result[k].IsPointer == mPtr(elemT(tuple, k, isVariadic)) && result[k].goType == elemT(tuple, k, isVariadic) && result[k].IsVariadic == (isVariadic && k == tuple.Len() - 1))
 //@   loop 1 invariant len(result) == tuple.Len() && 0 <= $v && $v <= tuple.Len()
-//@   loop 1 invariant forall k int :: 0 <= k && k < $v ==> result[k].TypeName == mName(elemT(tuple, k, isVariadic)) && result[k].TypePackage == mPkg(elemT(tuple, k, isVariadic)) && result[k].IsPointer == mPtr(elemT(tuple, k, isVariadic)) && result[k].IsVariadic == (isVariadic && k == tuple.Len() - 1)
+//@   loop 1 invariant forall k int :: 0 <= k && k < $v ==> result[k].TypeName == mName(elemT(tuple, k, isVariadic)) && result[k].TypePackage == mPkg(elemT(tuple, k, isVariadic)) && result[k].IsPointer == mPtr(elemT(tuple, k, isVariadic)) && result[k].goType == elemT(tuple, k, isVariadic) && result[k].IsVariadic == (isVariadic && k == tuple.Len() - 1)
 //@ func extractMethodTypesFromTuple
 //@   props C05 C10
 //@   nilable tuple
 //@   assigns nothing
 //@   ensures tuple == nil ==> len(result) == 0
 //@   ensures tuple != nil ==> len(result) == tuple.Len()
-//@   ensures tuple != nil ==> (forall k int :: 0 <= k && k < tuple.Len() ==> result[k].TypeName == mName(elemT(tuple, k, isVariadic)) && result[k].TypePackage == mPkg(elemT(tuple, k, isVariadic)) && result[k].IsPointer == mPtr(elemT(tuple, k, isVariadic)) && result[k].IsVariadic == (isVariadic && k == tuple.Len() - 1))
+//@   ensures tuple != nil ==> (forall k int :: 0 <= k && k < tuple.Len() ==> result[k].TypeName == mName(elemT(tuple, k, isVariadic)) && result[k].TypePackage == mPkg(elemT(tuple, k, isVariadic)) && result[k].IsPointer == mPtr(elemT(tuple, k, isVariadic)) && result[k].goType == elemT(tuple, k, isVariadic) && result[k].IsVariadic == (isVariadic && k == tuple.Len() - 1))
 //@   loop 1 invariant len(result) == tuple.Len() && 0 <= $v && $v <= tuple.Len()
-//@   loop 1 invariant forall k int :: 0 <= k && k < $v ==> result[k].TypeName == mName(elemT(tuple, k, isVariadic)) && result[k].TypePackage == mPkg(elemT(tuple, k, isVariadic)) && result[k].IsPointer == mPtr(elemT(tuple, k, isVariadic)) && result[k].IsVariadic == (isVariadic && k == tuple.Len() - 1)
+//@   loop 1 invariant forall k int :: 0 <= k && k < $v ==> result[k].TypeName == mName(elemT(tuple, k, isVariadic)) && result[k].TypePackage == mPkg(elemT(tuple, k, isVariadic)) && result[k].IsPointer == mPtr(elemT(tuple, k, isVariadic)) && result[k].goType == elemT(tuple, k, isVariadic) && result[k].IsVariadic == (isVariadic && k == tuple.Len() - 1)
 //@ func extractMethodsFromInterface
 //@   props C05 C10
 //@   assigns nothing
@@ -90,17 +92,20 @@ package implements
 // the type's methods are read from go/types' method set of *T (which contains the methods of T and *T, including the ones
 // promoted through embedding): one model per selection, in order, with its name and whether its receiver is a pointer
 //@ macro func msOf(named *types.Named) *types.MethodSet = types.NewMethodSet(types.NewPointer(named))
+// Go's method-set rule for a value of type T: the method is found in go/types' method set of T itself (methods with value
+// receivers and methods promoted through embedded pointers)
+//@ macro func inValueSet(named *types.Named, m types.Object) bool = types.NewMethodSet(named).Lookup(m.Pkg(), m.Name()) != nil
 //@ func extractMethodsFromNamedType
 //@   props C05 C10
 //@   assigns nothing
 //@   ensures len(result) == msOf(named).Len()
-//@   ensures forall a int :: 0 <= a && a < len(result) ==> result[a].Name == msOf(named).At(a).Obj().Name() && result[a].ReceiverIsPointer == typeis(cast(cast(msOf(named).At(a).Obj(), *types.Func).Type(), *types.Signature).Recv().Type(), *types.Pointer)
+//@   ensures forall a int :: 0 <= a && a < len(result) ==> result[a].Name == msOf(named).At(a).Obj().Name() && result[a].ReceiverIsPointer == !inValueSet(named, msOf(named).At(a).Obj())
 //@   ensures forall a int :: 0 <= a && a < len(result) ==> tupleModelM(result[a].Inputs, sigOfFunc(cast(msOf(named).At(a).Obj(), *types.Func)).Params(), sigOfFunc(cast(msOf(named).At(a).Obj(), *types.Func)).Variadic()) && tupleModelM(result[a].Outputs, sigOfFunc(cast(msOf(named).At(a).Obj(), *types.Func)).Results(), false)
 //@   ensures forall a int, b int :: 0 <= a && a < b && b < len(result) ==> result[a].Name != result[b].Name
 //@   loop 1 invariant 0 <= $v && $v <= methodSet.Len() && methodSet != nil && len(methods) == $v
-//@   loop 1 invariant methodSet == msOf(named)
+//@   loop 1 invariant methodSet == msOf(named) && valueSet == types.NewMethodSet(named)
 //@   loop 1 invariant forall a int :: 0 <= a && a < len(methods) ==> tupleModelM(methods[a].Inputs, sigOfFunc(cast(methodSet.At(a).Obj(), *types.Func)).Params(), sigOfFunc(cast(methodSet.At(a).Obj(), *types.Func)).Variadic()) && tupleModelM(methods[a].Outputs, sigOfFunc(cast(methodSet.At(a).Obj(), *types.Func)).Results(), false)
-//@   loop 1 invariant forall a int :: 0 <= a && a < len(methods) ==> methods[a].Name == methodSet.At(a).Obj().Name() && methods[a].ReceiverIsPointer == typeis(cast(cast(methodSet.At(a).Obj(), *types.Func).Type(), *types.Signature).Recv().Type(), *types.Pointer)
+//@   loop 1 invariant forall a int :: 0 <= a && a < len(methods) ==> methods[a].Name == methodSet.At(a).Obj().Name() && methods[a].ReceiverIsPointer == !inValueSet(named, methodSet.At(a).Obj())
 //@ func isPointerReceiver
 //@   props C10
 //@   nilable t
@@ -111,8 +116,9 @@ package implements
 //@   requires t != nil
 //@   assigns nothing
 
-// the matcher's model: a parameter is (type name, package path, pointer flag, variadic flag)
-//@ macro func mtEq(a MethodType, b InterfaceType) bool = a.TypeName == b.TypeName && a.TypePackage == b.TypePackage && a.IsPointer == b.IsPointer && a.IsVariadic == b.IsVariadic
+// two parameter models match iff Go deems their types identical and both are variadic or neither is; models without a
+// go/types type (hand-built) by their flat description
+//@ macro func mtEq(a MethodType, b InterfaceType) bool = (a.goType != nil && b.goType != nil) ? (a.IsVariadic == b.IsVariadic && types.Identical(a.goType, b.goType)) : (a.TypeName == b.TypeName && a.TypePackage == b.TypePackage && a.IsPointer == b.IsPointer && a.IsVariadic == b.IsVariadic)
 //@ macro func sigEq(tm TypeMethod, im InterfaceMethod) bool = len(tm.Inputs) == len(im.Inputs) && len(tm.Outputs) == len(im.Outputs) && (forall i int :: 0 <= i && i < len(tm.Inputs) ==> mtEq(tm.Inputs[i], im.Inputs[i])) && (forall i int :: 0 <= i && i < len(tm.Outputs) ==> mtEq(tm.Outputs[i], im.Outputs[i]))
 //@ func typesMatch
 //@   props C05 C10
